@@ -43,7 +43,20 @@ def run_probe(cwd: Any, names: list[str], timeout: int = 900) -> dict[str, Any]:
     p = subprocess.run([core.PY, "-m", "harness.treeprobe", "_probe.json", *names], cwd=cwd, capture_output=True, text=True, timeout=timeout, env=env)
     if p.returncode != 0:
         raise RuntimeError("tree probe failed: " + p.stderr[-3000:])
-    return json.loads((cwd / "_probe.json").read_text())
+    import sys
+
+    sys.setrecursionlimit(max(sys.getrecursionlimit(), 20000))  # the tree of a file with a long `a + b + c + ...` chain is deep
+    text = (cwd / "_probe.json").read_text()
+    try:
+        return json.loads(text)
+    except RecursionError:
+        # the C scanner has its own fixed depth limit; the pure-Python one obeys sys.setrecursionlimit
+        from json import decoder as _dec, scanner as _scan
+
+        dec = json.JSONDecoder()
+        dec.parse_string = _dec.py_scanstring
+        dec.scan_once = _scan.py_make_scanner(dec)
+        return dec.decode(text)
 
 
 @extract.register("Edges")
